@@ -213,6 +213,7 @@ class ArcRun:
 
 
 RUNNERS = {"tank": TankRun, "qtank": QTankRun, "arc": ArcRun, "qarc": ArcRun, "altarc": ArcRun}
+FAMILY_OF = {"dtank": "tank", "dqtank": "qtank", "dqarc": "qarc", "daltarc": "altarc"}
 
 
 def offer_cv(v):
@@ -228,6 +229,50 @@ def predicates(fam, cls, op, b, r, a, hist):
 
     def bad(pid, msg, known=None):
         out.append((pid, msg, known))
+
+    # ---- C11: decay in stores and arcs (decaying classes only; `held` = what the component physically holds)
+    if cls in ("DecayTank", "DecayQueueTank", "DecayArc", "DecayArcAlt") and not hist.get("tiny"):
+        def held(s_):
+            if fam == "tank":
+                return s_["sto"]
+            t = s_["act"] if fam == "qtank" else vzero_like(s_["decayed"])
+            if fam == "qarc":
+                for q in s_["queue"]:
+                    t = vadd(t, q[1])
+            else:
+                for vv in s_["buckets"].values():
+                    t = vadd(t, vv)
+            return t
+        hb, ha, db, da = held(b), held(a), b["decayed"], a["decayed"]
+        dec = hist.get("dec") or []
+        if da[0] != 0:
+            bad("C11", f"{cls}: decay reports a removed VOLUME {da[0]} after {k}")
+        if k == "end":
+            if vadd(ha, da) != hb:
+                bad("C11", f"{cls}: close-out: remaining {strs(ha)} + reported {strs(da)} != held before {strs(hb)}")
+            if vnonneg(hb):
+                if not vle(ha, hb):
+                    bad("C11", f"{cls}: close-out increased a pollutant: {strs(hb)} -> {strs(ha)}")
+                if not (vnonneg(da) and vle(da, hb)):
+                    bad("C11", f"{cls}: close-out reports removing {strs(da)} of {strs(hb)} (negative or more than present)")
+            for i_, pr in enumerate(dec):
+                if pr[0] == 0 and ha[1 + i_] != hb[1 + i_]:
+                    bad("C11", f"{cls}: pollutant {i_} has decay constant 0 but changed at close-out: {hb[1 + i_]} -> {ha[1 + i_]}")
+        elif k == "push" and hist.get("wet_op") and not hist.get("tiny_op") and fam in ("qarc", "altarc", "qtank"):
+            if fam == "qtank":
+                entered = vsubt(offer_cv(op[1]), r)
+                moved = vzero_like(hb)
+            else:
+                entered = vsubt(a["vin"], b["vin"])
+                moved = vsubt(a["vout"], b["vout"])
+            grown = vadd(vsubt(ha, hb), vsubt(da, db))
+            if vadd(grown, moved) != entered and not hist.get("forced"):
+                bad("C11", f"{cls}: push: entered {strs(entered)} != growth of what is held {strs(vsubt(ha, hb))} + delivered {strs(moved)} "
+                           f"+ growth of reported decay {strs(vsubt(da, db))}")
+            if not vle(db, da):
+                bad("C11", f"{cls}: push lowered the reported decay {strs(db)} -> {strs(da)}")
+        elif k not in ("push", "end", "pull", "pullexact") and da != db:
+            bad("C11", f"{cls}: {k} changed the reported decay {strs(db)} -> {strs(da)}")
 
     # ---- C06: nothing negative
     for name, val in a.items():
@@ -449,9 +494,10 @@ def run_case(fam, c, pids, rep, stats):
     install_exact()
     G.set_partition(c["adds"], c["nons"])
     viols = []
+    fam = FAMILY_OF.get(fam, fam)
     try:
         R = RUNNERS[fam](c)
-        hist = {"forced": False, "tiny": not coarse_case(c), "carried_push": False, "n": c.get("n", 0)}
+        hist = {"forced": False, "tiny": not coarse_case(c), "carried_push": False, "n": c.get("n", 0), "dec": c.get("dec")}
         sched = None
         if fam == "qtank" and c["cls"] == "QueueTank":
             s0 = R.snap()
@@ -531,11 +577,11 @@ def monitor(rep, pid, families, n, maxops, cases_extra=None):
     for fam in families:
         gen = K.FAMILIES[fam][0]
         r = C.rng(f"mon_{pid}_{fam}")
-        cases = [unforce(fam, gen(r, maxops)) for _ in range(n)]
+        cases = [unforce(FAMILY_OF.get(fam, fam), gen(r, maxops)) for _ in range(n)]
         cases = list(cases_extra.get(fam, []) if cases_extra else []) + cases
         cnt = 0
         for c in cases:
-            viols = run_case(fam, c, {pid}, rep, stats)
+            viols = run_case(FAMILY_OF.get(fam, fam), c, {pid}, rep, stats)
             total += 1
             cnt += 1
             rep.add_eval(("mon", fam, str(c)), nontrivial=len(c["ops"]) >= 3)
